@@ -21,10 +21,12 @@ STREAM = lambda prof, q, t: {"quick": [("codec", {"profile": prof, "count": q, "
                              "thorough": [("codec", {"profile": prof, "count": t, "tier": "thorough"}), ("conn", {"profile": prof, "count": t // 2, "tier": "thorough"})]}
 PROPS.update({
     "C09": {"suites": STREAM("C09", 120, 1500), "design": "6/C09", "projection": core.framing_projection()},
-    "C12": {"suites": STREAM("C12", 120, 1500), "design": "6/C12", "projection": core.framing_projection()},
+    "C12": {"suites": STREAM("C12", 120, 1500), "design": "6/C12", "projection": core.framing_projection(with_dump=True)},
     "C13": {"suites": STREAM("C13", 120, 1500), "design": "6/C13", "projection": core.framing_projection(with_dump=True)},
     "C18": {"suites": STREAM("C18", 120, 1500), "design": "6/C18", "projection": core.framing_projection(with_dump=True)},
-    "C10": {"suites": STREAM("C10", 120, 1500), "design": "6/C10", "projection": core.framing_projection()},
+    "C10": {"suites": {"quick": STREAM("C10", 120, 1500)["quick"] + [("grid", {"count": 3000})],
+                       "thorough": STREAM("C10", 120, 1500)["thorough"] + [("grid", {"count": 60000})]},
+            "design": "6/C10", "projection": core.framing_projection()},
 })
 
 RULE_STREAM = ("codec/conn: pipelined request streams (standard loud and quiet commands of every opcode, unimplemented opcodes, frames with "
@@ -137,7 +139,7 @@ def run_check(prop, tier, seed, replay):
             payload = {"kind": "counterexample", "property": prop, "suite": name, "seed": seed, "oracle": v["msg"], "line_in_program": v["line"] - v["start"]}
             payload.update(program_payload(run, v["start"], v["end"]))
             problems.append(("counterexample", v["msg"], payload, True))
-        stream_suite = name.startswith("codec") or name.startswith("conn")
+        stream_suite = name.startswith("codec") or name.startswith("conn") or name.startswith("grid")
         for (a, b, i) in run.divergences(cfg.get("projection") if (stream_suite and cfg.get("projection")) else None):
             if name.startswith("corpus") or name == "replay":
                 own, why = {prop}, f"witness replay differs at '{run.ops[i][:40]}'"
@@ -207,7 +209,7 @@ def finish(prop, tier, seed, t0, lean, n_obl, n_dis, stats, violations, known_hi
             "trusted_base": core.TRUSTED,
             "obligation_list": [{"name": o["name"], "axioms": o["axioms"]} for o in lean["obligations"]],
             "source_scan_hits": scan,
-            "evaluations": evals, "distinct_nontrivial": dn, "rule": RULE_STREAM if any(s.get("suite") in ("codec", "conn") for s in stats) else RULE,
+            "evaluations": evals, "distinct_nontrivial": dn, "rule": RULE_STREAM if any(s.get("suite") in ("codec", "conn", "grid") for s in stats) else RULE,
             "samples": samples or [],
             "correspondence_runs": stats,
             "lines_compared": sum(s.get("lines", 0) for s in stats),
